@@ -2,7 +2,8 @@
 (* Decision table for protocol-version negotiation, property C07.            *)
 (*  CaseSet    the configuration matrix: requested version x transport x     *)
 (*             HTTP options x versions advertised by the server side x       *)
-(*             availability of server/discover                               *)
+(*             availability of server/discover x an earlier connection to    *)
+(*             the same Server through another streamable endpoint           *)
 (*  Expected   the code-shaped procedure: Client.Connect (discover loop of   *)
 (*             two rounds, renegotiation from -32022 data, fall-back to      *)
 (*             initialize capped at 2025-11-25), ServerSession.handle's      *)
@@ -30,26 +31,35 @@ UnkModern == {"unk_new", "unk_far"}   \* order at or above 2026-07-28
 Requests == V \cup UnkLegacy \cup UnkModern \cup {"default"}
 
 \* ------------------------------------------------------------------ cases
-Transports == {"mem", "io", "sse", "stateful", "stateless"}
-HttpOpts == {"stateful", "stateless"}       \* transports with JSONResponse / EventStore options
+\* statefulnosid: a stateful StreamableHTTPHandler whose server suppresses session ids
+\* (ServerOptions.GetSessionID returns ""): Stateless = false, every POST gets an ephemeral session
+Transports == {"mem", "io", "sse", "stateful", "statefulnosid", "stateless"}
+HttpOpts == {"stateful", "statefulnosid", "stateless"}   \* transports with JSONResponse / EventStore options
+\* transports that cannot carry the sessionless protocol: SSE and every stateful HTTP endpoint
+LegacyOnly == {"sse", "stateful", "statefulnosid"}
+\* prior: before the judged connection, a default client connected (and disconnected) to the SAME
+\* Server through a second streamable handler of the named kind (same JSON / store options)
+Priors == {"none", "stateless", "stateful"}
 Discs == {"native", "notfound", "unsupp"}   \* server/discover: SDK handler / method unknown (-32601) /
                                             \* refused with -32022 listing legacy versions only
 
 \* wrap: the server transport is wrapped in a ProtocolVersionSupporter that admits exactly adv
 Wrapped ==
-  { [req |-> r, tr |-> t, json |-> FALSE, store |-> FALSE, wrap |-> TRUE, adv |-> a, disc |-> "native"] :
+  { [req |-> r, tr |-> t, json |-> FALSE, store |-> FALSE, wrap |-> TRUE, adv |-> a, disc |-> "native", prior |-> "none"] :
       r \in Requests, t \in {"mem", "io"}, a \in SUBSET V }
 Unwrapped ==
-  { [req |-> r, tr |-> t, json |-> j, store |-> s, wrap |-> FALSE, adv |-> V, disc |-> d] :
-      r \in Requests, t \in Transports, j \in BOOLEAN, s \in BOOLEAN, d \in Discs }
-ValidCase(c) == c.tr \notin HttpOpts => (~c.json /\ ~c.store)
+  { [req |-> r, tr |-> t, json |-> j, store |-> s, wrap |-> FALSE, adv |-> V, disc |-> d, prior |-> p] :
+      r \in Requests, t \in Transports, j \in BOOLEAN, s \in BOOLEAN, d \in Discs, p \in Priors }
+ValidCase(c) == /\ c.tr \notin HttpOpts => (~c.json /\ ~c.store /\ c.prior = "none")
+                /\ c.prior # "none" => c.disc = "native"
 CaseSet == Wrapped \cup {c \in Unwrapped : ValidCase(c)}
 
 \* ------------------------------------------------- the property's vocabulary
 \* the version the client asks for
 Req(c) == IF c.req = "default" THEN Latest ELSE c.req
 \* what the transport can carry: 2026-07-28 is defined for stdio and stateless streamable HTTP only
-TransportSupported(tr) == IF tr \in {"sse", "stateful"} THEN Legacy ELSE V
+\* (whatever was connected to the same Server before does not change what this endpoint can carry)
+TransportSupported(tr) == IF tr \in LegacyOnly THEN Legacy ELSE V
 \* what the server side advertises: the wrapper's set; nothing modern when it has no server/discover
 ServerAdvertised(c) == IF c.disc = "native" THEN c.adv ELSE c.adv \ Modern
 ClientSupported == V
@@ -60,7 +70,7 @@ ModernAvailable(c) == Mutual(c) \cap Modern # {}
 \* Outcome: [kind ("session"|"error"), version, nDisc, sentInit, listOK, callOK]
 Sound(c, o) == o.kind = "session" => o.version \in Mutual(c)
 NoModernOverLegacyTransport(c, o) ==
-  (o.kind = "session" /\ c.tr \in {"sse", "stateful"}) => o.version \notin Modern
+  (o.kind = "session" /\ c.tr \in LegacyOnly) => o.version \notin Modern
 Exact(c, o) == (o.kind = "session" /\ Req(c) \in Mutual(c)) => o.version = Req(c)
 \* discovery unavailable or without modern overlap => the initialize handshake is attempted
 Fallback(c, o) == (ModernRequested(c) /\ ~ModernAvailable(c)) => o.sentInit
@@ -82,8 +92,8 @@ ModernStr(r) == r \in Modern \cup UnkModern
 \* filterSupportedVersions(t): the wrapper's answer, SSEServerTransport / StreamableServerTransport.SupportsProtocolVersion
 TransportFilter(c) == IF c.wrap THEN c.adv
                       ELSE IF c.tr = "sse" THEN {v \in V : v \notin Modern}
-                      ELSE IF c.tr = "stateful" THEN Legacy
-                      ELSE V
+                      ELSE IF c.tr \in {"stateful", "statefulnosid"} THEN Legacy   \* t.Stateless = FALSE
+                      ELSE V                  \* computed per session in Server.Connect: c.prior plays no role
 
 \* reply to server/discover carrying _meta.protocolVersion = r
 DiscReply(c, r) ==
@@ -118,7 +128,7 @@ Expected(c) ==
 
 \* ------------------------------------------------------------- signatures
 \* abstract class of a failing (case, outcome): which clause, how the session was made, where
-TrClass(c) == IF c.wrap THEN "wrapped" ELSE c.tr
+TrClass(c) == IF c.wrap THEN "wrapped" ELSE IF c.prior = "none" THEN c.tr ELSE c.tr \o "+prior=" \o c.prior
 Via(o) == IF o.sentInit THEN "initialize" ELSE "discover"
 FailedClauses(c, o) ==
   (IF Sound(c, o) THEN {} ELSE {"Sound"}) \cup
